@@ -26,13 +26,23 @@ func (m *collection) NotifyMerger(kind string, synchronous bool) error {
 		pongCh = make(chan struct{})
 	}
 
-	m.pingMergerCh <- ping{
+	// The merger might have stopped already (or stops before it gets to
+	// this ping) when the collection is being closed: do not wait forever.
+	select {
+	case m.pingMergerCh <- ping{
 		kind:   kind,
 		pongCh: pongCh,
+	}:
+	case <-m.doneMergerCh:
+		return ErrClosed
 	}
 
 	if pongCh != nil {
-		<-pongCh
+		select {
+		case <-pongCh:
+		case <-m.doneMergerCh:
+			return ErrClosed
+		}
 	}
 
 	atomic.AddUint64(&m.stats.TotNotifyMergerEnd, 1)
